@@ -44,7 +44,7 @@ func fmaCase(c *Ctx, vals []*Opnd, part []int, prec uint32, mode uint8, pre int)
 	o, pv, isNaN, _, _ := execPart(spec, part, vals, prec, mode, pre)
 	c.Outcome(o.Hash())
 	key := func() string {
-		return fmt.Sprintf("FMA %s alias=%s prec=%d mode=%s pre=%s", opndsString(vals), partString(part), prec, modeName(mode), preNames[pre])
+		return fmt.Sprintf("FMA %s alias=%s prec=%d mode=%s pre=%s recv-variant=%d", opndsString(vals), partString(part), prec, modeName(mode), preNames[pre], recvVariant)
 	}
 	if fmaAccOnly {
 		if exp.Acc != 0 {
@@ -266,13 +266,13 @@ func fmaLayers(tier string) []Layer {
 	}
 	// F4: all aliasing partitions of {z,x,y,u} with small values and specials, all receiver pre-states when unaliased
 	{
-		vals := []*Opnd{mkInt64(3, 0, 3, 0), mkInt64(-12, -1, 3, 0), mkInt64(25, 1, 3, 0), mkInt64(-7, -2, 3, 0), mkInt64(999, 0, 3, 0)}
+		vals := []*Opnd{mkInt64(3, 0, 3, 0), mkInt64(-12, -1, 3, 0), mkInt64(25, 1, 3, 0), mkInt64(-7, -2, 3, 0), mkInt64(999, 0, 3, 0), mkInt64(4, 0, 3, 0), mkInt64(-12, 0, 3, 0)}
 		vals = append(vals, specials(3)...)
 		parts := partitions(3)
 		layers = append(layers, Layer{
 			Name:   "F4-aliasing",
 			Units:  len(parts),
-			Bounds: fmt.Sprintf("all %d aliasing partitions of {z,x,y,u} × values from {3,−1.2,250,−0.07,999,±0,±Inf} per class × prec {2,3} × 6 modes × %d receiver pre-states (when z is not an operand)", len(parts), numPre),
+			Bounds: fmt.Sprintf("all %d aliasing partitions of {z,x,y,u} × values from {3,−1.2,250,−0.07,999,4,−12 (so that 3·4+(−12) cancels exactly),±0,±Inf} per class × prec {2,3} × 6 modes × %d receiver pre-states (when z is not an operand)", len(parts), numPre),
 			Run: func(c *Ctx, u int) {
 				part := parts[u]
 				nclass := 0
@@ -300,7 +300,11 @@ func fmaLayers(tier string) []Layer {
 						}
 						for _, m := range M6 {
 							if zAliased {
-								fmaCase(c, ops, part, prec, m, preFresh)
+								for v := 0; v < numRecvVariants; v++ {
+									recvVariant = v
+									fmaCase(c, ops, part, prec, m, preFresh)
+								}
+								recvVariant = 0
 							} else {
 								for pre := 0; pre < numPre; pre++ {
 									fmaCase(c, ops, part, prec, m, pre)
@@ -365,7 +369,11 @@ func fmaLayers(tier string) []Layer {
 						}
 						for _, m := range []uint8{ToNearestEven, ToZero, ToPositiveInf} {
 							if zAliased {
-								fmaCase(c, ops, part, prec, m, preFresh)
+								for v := 0; v < numRecvVariants; v++ {
+									recvVariant = v
+									fmaCase(c, ops, part, prec, m, preFresh)
+								}
+								recvVariant = 0
 							} else {
 								for _, pre := range []int{preFresh, preLonger, preBigDirty} {
 									fmaCase(c, ops, part, prec, m, pre)
@@ -386,6 +394,44 @@ func fmaLayers(tier string) []Layer {
 					}
 					if i >= nclass || c.Done() {
 						break
+					}
+				}
+			},
+		})
+	}
+	// F7: large operands (Karatsuba products inside FMA)
+	{
+		vals := largeOperands(thorough)
+		layers = append(layers, Layer{
+			Name:   "F7-large-operands",
+			Units:  len(vals),
+			Bounds: fmt.Sprintf("FMA(x,y,u) with x,y from %d operands of 31..130 words (200 thorough: all nines, 10^B+1, sparse, uniform edge words) and short partners; u in {−10^(exponent of x·y), +1 unit far below, a short value}; precision {30, full}; modes Even/ToZero/ToPositiveInf; receiver fresh and z==x", len(vals)),
+			Run: func(c *Ctx, u int) {
+				xo := vals[u]
+				for yi, yo := range vals {
+					if c.Done() {
+						return
+					}
+					if len(xo.Words) > 2 && len(yo.Words) > 2 && (u+yi)%4 != 0 {
+						continue
+					}
+					p := mulExact(xo.V, yo.V)
+					pe := p.Exp()
+					us := []*Opnd{
+						mkCoef(!p.Neg, big1, pe-1, 1, 0),    // −10^(top digit position): massive cancellation of the leading digit
+						mkCoef(p.Neg, big1, p.E10-30, 1, 0), // sticky-only addend far below
+						mkInt64(-7, pe-5, 1, 0),
+					}
+					L := uint32(19 * (len(xo.Words) + len(yo.Words)))
+					for _, uo := range us {
+						for _, prec := range []uint32{30, L} {
+							for _, m := range []uint8{ToNearestEven, ToZero, ToPositiveInf} {
+								fmaCase(c, []*Opnd{xo, yo, uo}, noAlias3, prec, m, preFresh)
+							}
+						}
+						if minPrecWords(xo.Words) <= int64(L) {
+							fmaCase(c, []*Opnd{xo, yo, uo}, []int{0, 0, 1, 2}, L, ToZero, preFresh)
+						}
 					}
 				}
 			},
